@@ -191,91 +191,109 @@ func exec(i in) vh.Out {
 	commits, concurrent := 0, false
 	dirty := map[int]bool{}
 	stale := map[int]bool{} // transactions that were live while another one committed changes
+	panicked := false
 	for _, o := range i.Ops {
+		if panicked {
+			break
+		}
 		var opS, obS string
 		var ob interface{}
-		switch o.K {
-		case "new":
-			txs = append(txs, config.NewTransaction(st))
-			opS = "ONew"
-		case "set":
-			v := norm(o.V)
-			err := txs[o.I].Set(o.Snap, o.Key, v)
-			opS = fmt.Sprintf("(OSet %d%%nat %s %s %s)", o.I, keyN(o.Snap), coqPath(o.Key), coqTree(v))
-			obS = "(BSet " + vh.CoqBool(err == nil) + ")"
-			ob = err == nil
-			if err != nil {
-				tags["set-rejected"] = true
-			} else {
-				dirty[o.I] = true
-				if v == nil {
-					tags["null-write"] = true
+		func() {
+			defer func() {
+				if r := recover(); r != nil {
+					// a panic inside the implementation is reported as an observation no model step produces
+					panicked = true
+					tags["panic"] = true
+					if opS == "" {
+						opS = "ONew"
+					}
+					obS = "(BGet GOther)"
+					ob = fmt.Sprintf("panic: %v", r)
 				}
-			}
-		case "get":
-			var res interface{}
-			err := txs[o.I].Get(o.Snap, o.Key, &res)
-			opS = fmt.Sprintf("(OGet %d%%nat %s %s)", o.I, keyN(o.Snap), coqPath(o.Key))
-			switch {
-			case err == nil:
-				t := norm(res)
-				obS = "(BGet (GOk " + coqTree(t) + "))"
-				ob = map[string]interface{}{"ok": t}
-				tags["get-ok"] = true
-			case config.IsNoOption(err):
-				obS = "(BGet GNoOption)"
-				ob = "no-option"
-				tags["get-nooption"] = true
-			case strings.Contains(err.Error(), "is not a map"):
-				obS = "(BGet GNotMap)"
-				ob = "not-a-map"
-				tags["get-notmap"] = true
-			default:
-				obS = "(BGet GOther)"
-				ob = "error: " + err.Error()
-				tags["get-other-error"] = true
-			}
-		case "commit":
-			txs[o.I].Commit()
-			opS = fmt.Sprintf("(OCommit %d%%nat)", o.I)
-			if dirty[o.I] {
-				commits++
-				if stale[o.I] {
-					concurrent = true
-					tags["commit-on-newer-config"] = true
-				}
-				for j := range txs {
-					if j != o.I {
-						stale[j] = true
+			}()
+			switch o.K {
+			case "new":
+				txs = append(txs, config.NewTransaction(st))
+				opS = "ONew"
+			case "set":
+				v := norm(o.V)
+				err := txs[o.I].Set(o.Snap, o.Key, v)
+				opS = fmt.Sprintf("(OSet %d%%nat %s %s %s)", o.I, keyN(o.Snap), coqPath(o.Key), coqTree(v))
+				obS = "(BSet " + vh.CoqBool(err == nil) + ")"
+				ob = err == nil
+				if err != nil {
+					tags["set-rejected"] = true
+				} else {
+					dirty[o.I] = true
+					if v == nil {
+						tags["null-write"] = true
 					}
 				}
+			case "get":
+				var res interface{}
+				err := txs[o.I].Get(o.Snap, o.Key, &res)
+				opS = fmt.Sprintf("(OGet %d%%nat %s %s)", o.I, keyN(o.Snap), coqPath(o.Key))
+				switch {
+				case err == nil:
+					t := norm(res)
+					obS = "(BGet (GOk " + coqTree(t) + "))"
+					ob = map[string]interface{}{"ok": t}
+					tags["get-ok"] = true
+				case config.IsNoOption(err):
+					obS = "(BGet GNoOption)"
+					ob = "no-option"
+					tags["get-nooption"] = true
+				case strings.Contains(err.Error(), "is not a map"):
+					obS = "(BGet GNotMap)"
+					ob = "not-a-map"
+					tags["get-notmap"] = true
+				default:
+					obS = "(BGet GOther)"
+					ob = "error: " + err.Error()
+					tags["get-other-error"] = true
+				}
+			case "commit":
+				txs[o.I].Commit()
+				opS = fmt.Sprintf("(OCommit %d%%nat)", o.I)
+				if dirty[o.I] {
+					commits++
+					if stale[o.I] {
+						concurrent = true
+						tags["commit-on-newer-config"] = true
+					}
+					for j := range txs {
+						if j != o.I {
+							stale[j] = true
+						}
+					}
+				}
+				dirty[o.I] = false
+				stale[o.I] = false
+			case "save":
+				if err := config.SaveRevisionConfig(st, o.Snap, snap.R(o.Rev)); err != nil {
+					panic(err)
+				}
+				opS = fmt.Sprintf("(OSave %s %d)", keyN(o.Snap), o.Rev)
+				tags["save"] = true
+			case "restore":
+				if err := config.RestoreRevisionConfig(st, o.Snap, snap.R(o.Rev)); err != nil {
+					panic(err)
+				}
+				opS = fmt.Sprintf("(ORestore %s %d)", keyN(o.Snap), o.Rev)
+				tags["restore"] = true
+				for j := range txs {
+					stale[j] = true
+				}
+			case "discard":
+				if err := config.DiscardRevisionConfig(st, o.Snap, snap.R(o.Rev)); err != nil {
+					panic(err)
+				}
+				opS = fmt.Sprintf("(ODiscard %s %d)", keyN(o.Snap), o.Rev)
+				tags["discard"] = true
+			default:
+				panic("unknown op " + o.K)
 			}
-			dirty[o.I] = false
-			stale[o.I] = false
-		case "save":
-			if err := config.SaveRevisionConfig(st, o.Snap, snap.R(o.Rev)); err != nil {
-				panic(err)
-			}
-			opS = fmt.Sprintf("(OSave %s %d)", keyN(o.Snap), o.Rev)
-			tags["save"] = true
-		case "restore":
-			if err := config.RestoreRevisionConfig(st, o.Snap, snap.R(o.Rev)); err != nil {
-				panic(err)
-			}
-			opS = fmt.Sprintf("(ORestore %s %d)", keyN(o.Snap), o.Rev)
-			tags["restore"] = true
-			for j := range txs {
-				stale[j] = true
-			}
-		case "discard":
-			if err := config.DiscardRevisionConfig(st, o.Snap, snap.R(o.Rev)); err != nil {
-				panic(err)
-			}
-			opS = fmt.Sprintf("(ODiscard %s %d)", keyN(o.Snap), o.Rev)
-			tags["discard"] = true
-		default:
-			panic("unknown op " + o.K)
-		}
+		}()
 		if obS == "" {
 			c, r := committed(st)
 			obS = "(BCfg " + coqMap(c) + " " + coqRev(r) + ")"
